@@ -87,6 +87,25 @@ def describe_case(pattern, cfg, att):
     }
 
 
+class _Problems(list):
+    """at most 40 problems per analysed case, long values shortened (a listing of 65 600 instructions may yield that many)"""
+
+    def append(self, p):
+        if len(self) < 40:
+            clause, exp, obs = p
+            list.append(self, (clause, _short(exp), _short(obs)))
+
+
+def _short(v):
+    if isinstance(v, str):
+        return v if len(v) <= 2000 else v[:1500] + f" ...[{len(v)} chars]... " + v[-300:]
+    if isinstance(v, (list, tuple)) and len(v) > 60:
+        return type(v)(list(v[:50])) + type(v)([f"...[{len(v)} items]..."]) + type(v)(list(v[-5:]))
+    if isinstance(v, tuple):
+        return tuple(_short(x) for x in v)
+    return v
+
+
 def analyse(h, mop, ref, pattern, path, norm, *, want=("verdict",)):
     """Run the real matcher on one listing and compare with the reference.
     Returns list of (clause, expected, observed).  Clauses:
@@ -96,7 +115,7 @@ def analyse(h, mop, ref, pattern, path, norm, *, want=("verdict",)):
       scan     leftmost / non-overlapping / complete scan (C11)
       addr     address-only result = address of first covered instruction (C07)
     """
-    problems = []
+    problems = _Problems()
     texts = h.match(mop, path, ret="list", mode="all", only_addr=False)
     rfound = ref.found(pattern, norm)
     if not isinstance(texts, list) or not all(isinstance(t, str) for t in texts):
@@ -115,7 +134,7 @@ def analyse(h, mop, ref, pattern, path, norm, *, want=("verdict",)):
         if loc is None or loc[0] not in offidx or loc[1] not in offidx:
             ok_align = False
             if "aligned" in want:
-                problems.append(("aligned", "match covers whole records of " + stream, t))
+                problems.append(("aligned", "match covers whole records of " + (stream if len(stream) < 600 else stream[:300] + " ... " + stream[-200:]), t))
             continue
         spans_obs.append((offidx[loc[0]], offidx[loc[1]]))
     if ok_align and ({"genuine", "scan"} & set(want)):
